@@ -139,6 +139,13 @@ def build_harness(race=False):
         pass
     out = os.path.join(workroot(), "bmcreplay" + ("-race" if race else "") + "-%d" % os.getpid())
     cmd = ["go", "build", "-tags", "verif", "-o", out]
+    if REPO != "/repo":
+        # seeded-change testing: build against a scratch worktree without touching /repo
+        alt = os.path.join(workroot(), "alt-%d.mod" % os.getpid())
+        txt = open(os.path.join(HARNESS, "go.mod")).read().replace("=> /repo", "=> " + REPO)
+        open(alt, "w").write(txt)
+        shutil.copyfile(os.path.join(REPO, "go.sum"), alt[:-4] + ".sum")
+        cmd.append("-modfile=" + alt)
     if race:
         cmd.insert(2, "-race")
     cmd.append(".")
@@ -185,6 +192,8 @@ def load_known():
 
 
 def write_evidence(pid, tier, seed, level, coverage, wall, violations, assumptions):
+    if os.environ.get("VERIF_NO_EVIDENCE"):
+        return
     os.makedirs(os.path.join(VERIF, "evidence"), exist_ok=True)
     ev = {"property_id": pid, "tier": tier, "seed": int(seed), "level": level, "coverage": coverage,
           "assumptions": assumptions, "wall_s": round(wall, 2), "violations": int(violations)}
